@@ -3,6 +3,7 @@
   (C08's statements are corollaries of the same refinement theorem; see Props/C08.)
 -/
 import E2P.Lemmas.ExecLemmas
+import E2P.Model.ExecRej
 namespace E2P.C04
 open E2P
 
@@ -137,6 +138,59 @@ theorem no_override_no_change (body : Nat → Option XExpr) : edit body (fun _ =
 theorem override_outside (body : Nat → Option XExpr) (ov : Nat → Option Val) (fuel u : Nat) (hb : body u = none) :
     recalc (edit body ov) (fuel + 1) u = match ov u with | some v => .ok v | none => .ok .blank := by
   cases h : ov u <;> simp [recalc, cellValueF, edit, h, hb, evalX]
+
+/-! ### set-cells calls that are rejected -/
+
+/-- a batch with an address that does not resolve (unknown sheet title, bad column letters, row 0) is rejected as a whole:
+    the executor - overrides, pending flag, arguments of the instance, reported sheet sizes - is what it was -/
+theorem rejected_batch_changes_nothing (titles : List (List Char)) (st : ExecState) (batch : List (Addr × Val))
+    (h : ∃ av ∈ batch, resolve titles av.1 = none) :
+    setCellsAddr titles st batch = (st, false) := by
+  have hr : resolveAll titles batch = none := by
+    induction batch with
+    | nil => obtain ⟨av, hm, _⟩ := h; cases hm
+    | cons av rest ih =>
+      obtain ⟨a, v⟩ := av
+      obtain ⟨av', hm, hn⟩ := h
+      simp only [resolveAll]
+      rcases List.mem_cons.mp hm with rfl | hm'
+      · simp only at hn; rw [hn]
+      · rw [ih ⟨av', hm', hn⟩]; cases resolve titles a <;> rfl
+  simp [setCellsAddr, hr]
+
+/-- a batch all of whose addresses resolve is the batch of the resolved cells -/
+theorem accepted_batch_is_setCells (titles : List (List Char)) (st : ExecState) (batch : List (Addr × Val))
+    (b : List (Uid × Val)) (h : resolveAll titles batch = some b) :
+    setCellsAddr titles st batch = (setCells st b, true) := by simp [setCellsAddr, h]
+
+theorem runA_accepted (st : ExecState) (ops : List OpA) :
+    (runA wb fuel st ops).1 = (run wb fuel st (accepted ops)).1 ∧
+      answers (runA wb fuel st ops).2 = (run wb fuel st (accepted ops)).2 := by
+  induction ops generalizing st with
+  | nil => simp [runA, run, accepted, answers]
+  | cons op ops ih =>
+    cases op with
+    | op o =>
+      obtain ⟨i1, i2⟩ := ih (step wb fuel st o).1
+      simp only [runA, stepA, run, accepted, answers]
+      exact ⟨i1, by rw [i2]⟩
+    | rejected =>
+      obtain ⟨i1, i2⟩ := ih st
+      simp only [runA, stepA, accepted, answers]
+      exact ⟨i1, i2⟩
+
+/-- **Rejected calls are invisible** (every history): with any number of rejected set-cells calls anywhere in it, a history
+    answers every query exactly as the history without them does - hence (exec_refines) as a fresh evaluation of the workbook
+    edited by the ACCEPTED writes, with the grid extents of the used range extended by the accepted overrides only. -/
+theorem exec_refines_with_rejected (ops : List OpA) (hv : ValidOps sizes (accepted ops)) :
+    answers (runA wb fuel (ExecState.init sizes) ops).2 = specRun (bodyOf wb) fuel sizes [] (accepted ops) := by
+  rw [(runA_accepted wb fuel _ ops).2]
+  exact exec_refines wb fuel sizes (accepted ops) hv
+
+/-- non-vacuity: an unknown title rejects the batch whatever stands before it -/
+example : setCellsAddr ["S".toList] (ExecState.init [(2, 2)]) [(.num 0 5 7, .int 9), (.named "nope".toList 0 0, .int 2)] =
+    (ExecState.init [(2, 2)], false) :=
+  rejected_batch_changes_nothing _ _ _ ⟨(.named "nope".toList 0 0, .int 2), by simp, by decide⟩
 
 /-! ### non-vacuity: A1 = 1, B1 = A1+1, C1 = B1*2, B2 = 1/0, C2 = B2+1; override A1 twice, then the failing B2 -/
 private def u (c r : Nat) : Uid := ⟨0, c, r⟩
